@@ -533,6 +533,32 @@ def run(rep, tier, seed):
             rep.violation("sanitizer-report:" + variant, san[-1500:], None)
         _judge_all(rep, variant, "direct", dcases[:nd], dmeta[:nd], dres)
         _judge_all(rep, variant, "feel", fcases[:nf], fmeta[:nf], fres)
+    # the same direct batches from 8 threads at once: every result must be the one computed alone (the decimal context
+    # is per call; nothing a thread computes may change what another thread gets)
+    npar = 12 if tier == "quick" else 400
+    pcases = [dict(c, threads=8) for c in dcases[:: max(1, len(dcases) // npar)][:npar]]
+    # plus batches made of the cheap operations only - inexact + - * / next to the integer checks (trunc, fract, odd,
+    # even, is_integer on the same operands) - repeated 40 times per thread, so that they really meet in time
+    arith = [(op, a, b) for op, a, b, _, _ in plan if op in ("add", "sub", "mul", "div")]
+    for group in chunks(arith[: (6 if tier == "quick" else 200) * 150], 150):
+        items = []
+        for j, (op, a, b) in enumerate(group):
+            items.append([DIRECT[op], a, b])
+            items.append([("trunc", "fract", "odd", "even", "is_integer")[j % 5], a if j % 2 else b, "0"])
+        pcases.append({"op": "num", "items": items, "threads": 8, "rounds": 40})
+    pres, _ = runner.run_cases("dbg", pcases, rep.workdir, label="direct-parallel", case_timeout=120, nshards=4)
+    pchecked = 0
+    for c, r in zip(pcases, pres):
+        if "harness_error" in r or r.get("missing"):
+            raise runner.Inconclusive("driver harness error: %s" % json.dumps(r)[:300])
+        if "rs" not in r:
+            rep.violation(crash_signature(r, "c02-parallel-batch"), "parallel batch died: %s" % json.dumps(r)[:600], {"variant": "dbg", "case": c})
+            continue
+        pchecked += r.get("par_checked", 0)
+        rep.count(r.get("par_checked", 0))
+        for d in r.get("par_diffs", [])[:1]:
+            rep.violation("concurrent-result-differs:op=%s" % d["item"][0], "%s(%s, %s) computed while 7 other threads compute gives %s, alone %s" % (d["item"][0], d["item"][1], d["item"][2], d["concurrent"], d["alone"]), {"variant": "dbg", "case": c, "expected": d["alone"], "observed": d["concurrent"]})
+    rep.extra["operations_repeated_from_8_threads"] = pchecked
     # valgrind memcheck replay of a slice (uninitialised reads / heap errors inside decNumber and at the FFI
     # buffers, which ASan's red zones and write-only C instrumentation do not show)
     nv = (2, 4) if tier == "quick" else (64, 96)
